@@ -27,6 +27,8 @@
 (* (O) exact oracle: OptimalValue / OptimalQ (policy enumeration, Cramer) for the limit   *)
 (*     clause; for the other clauses the ground truth is the identity itself.             *)
 (* (R) reference machine, one action per step of the loop of the code:                    *)
+(*       EarlierCall - an earlier plan_on of the same planner object on another MDP: no   *)
+(*                  effect on what follows (call histories: plan A, then B)               *)
 (*       Start    - pi_0 = initial policy                                                 *)
 (*       Evaluate - v = solve(I - g P_pi, r_pi - lambda KL(pi|prior)); q = look-ahead(v)  *)
 (*       Improve  - pi' = softmax(q / lambda + log prior) (clamped at the smallest float)  *)
@@ -58,6 +60,9 @@
 (* Tolerances (units of 1/2^20; every logged integer is a rounding, error <= 1/2):        *)
 (*  look-ahead     N floors + 1 floor + roundings <= N + 3; float32 runs add the forward   *)
 (*                 error bound of the dot product 2 (N + 6) 2^-24 (max|R| + max|V|).      *)
+(*  look-ahead, fine  the returned q, v are also logged in units of 2^-40 (two limbs); the *)
+(*                 identity at the GIVEN rational discount is evaluated exactly with a     *)
+(*                 tolerance from float64 round-off only (operator FineRes / FineTol).     *)
 (*  improve step   exact softmax: lambda (L_a - L_b) = q_a - q_b up to ceil(lambda) + 3.   *)
 (*  convergence    msdm stops when |pi - pi'| <= 1e-8 + 1e-5 pi' entrywise and returns pi  *)
 (*                 (not pi'), q, v.  Hence log(pi_a / pi'_a) is bounded by                 *)
@@ -147,6 +152,34 @@ LookRes(T, e, s, a) ==
 LookFails(T, e, j, clause) ==
   {FR(clause, j, x[1], x[2], 0, LookRes(T, e, x[1], x[2]), LookTol(T, e)) :
       x \in {y \in SA(T) : AbsI(LookRes(T, e, y[1], y[2])) > LookTol(T, e)}}
+
+\* ------------------------------------------------------------------ clause 1 at the precision of float64
+\* The returned iterate also carries q and v in units of 2^-40 as two limbs x = xh * 2^20 + xl (0 <= xl < 2^20):
+\* fields qh, ql, vh, vl.  With D = PD * GD and n_t = P[s][a][t] * GN the look-ahead identity at the GIVEN rational
+\* discount is  E = D q - GD 2^40 sum_t P_t R_t - sum_t n_t v_t = 0  in units of 2^-40 / D.  E is evaluated exactly:
+\* the products of the high limbs are split into quotient and remainder modulo D, those of the low limbs into
+\* 10-bit halves, so that E = 2^20 Y + Z with small Y and |Z| < 2^24.  Tolerance: roundings of the log (D), plus
+\* the forward error of the float64 dot product (N + 6) 2^-53 (max|R| + max|V|) 2^40 D.
+FineRes(T, e, s, a) ==
+  LET D   == T.PD * T.GD
+      n   == [t \in St(T) |-> T.P[s][a][t] * T.GN]
+      rs  == SumTo([t \in St(T) |-> T.P[s][a][t] * T.R[s][a][t]], T.N)
+      qR  == (rs * U20) \div T.PD
+      rR  == (rs * U20) % T.PD
+      c   == e.qh[s][a] - qR - SumTo([t \in St(T) |-> MulDiv(e.vh[t], n[t], D)], T.N)
+      rem == SumTo([t \in St(T) |-> ((e.vh[t] % D) * n[t]) % D], T.N)
+      W1  == (e.ql[s][a] \div K10) * D - SumTo([t \in St(T) |-> (e.vl[t] \div K10) * n[t]], T.N)
+      W0  == (e.ql[s][a] % K10) * D - SumTo([t \in St(T) |-> (e.vl[t] % K10) * n[t]], T.N)
+  IN IF c > 1000 THEN LIM ELSE IF c < -1000 THEN -LIM
+     ELSE LET Y == D * c - T.GD * rR - rem + (W1 \div K10)
+              Z == K10 * (W1 % K10) + W0
+          IN IF Y > 100 THEN LIM ELSE IF Y < -100 THEN -LIM ELSE U20 * Y + Z
+FineTol(T, e) ==
+  T.PD * T.GD * (2 + (((T.N + 6) * (RAbsMax(T) + (VMaxAbs(T, e) \div U20) + 1)) \div 8192))
+FineFails(T, e, j) ==
+  IF T.f32 = 1 \/ e.fine = 0 THEN {}
+  ELSE {FR("action-values-not-lookahead-at-the-given-discount", j, x[1], x[2], 0, FineRes(T, e, x[1], x[2]), FineTol(T, e)) :
+          x \in {y \in SA(T) : AbsI(FineRes(T, e, y[1], y[2])) > FineTol(T, e)}}
 
 \* ------------------------------------------------------------------ evaluation step of an iterate
 \* v(s) = sum_a pi_a q_a - lambda KL(pi | prior); with sum_a pi_a = 1:  sum_a pi_a (q_a - v) = lambda sum_a pi_a L_a
@@ -257,7 +290,7 @@ ClampStates(T, e) ==
 ReturnedFails(T, e, j) ==
   ShapeFails(T, e, j) \cup
   (IF ~MagOK(T, e) THEN BoundFails(T, e, j)
-   ELSE LookFails(T, e, j, "action-values-not-lookahead-of-state-values")
+   ELSE LookFails(T, e, j, "action-values-not-lookahead-of-state-values") \cup FineFails(T, e, j)
         \cup (IF T.f32 = 1 THEN {} ELSE FixFails(T, e, j) \cup LimitFails(T, e, j) \cup BoundFails(T, e, j)))
 
 \* numbers of the final judgement, emitted for the harness' independent re-computation (machinery cross-check)
@@ -266,6 +299,9 @@ Report(T, e) ==
   ELSE [mag |-> 1,
         look |-> [s \in St(T) |-> [a \in Ac(T) |-> IF a \in Avail(T, s) THEN LookRes(T, e, s, a) ELSE 0]],
         looktol |-> LookTol(T, e),
+        fine |-> IF T.f32 = 1 \/ e.fine = 0 THEN <<>>
+                 ELSE [s \in St(T) |-> [a \in Ac(T) |-> IF a \in Avail(T, s) THEN FineRes(T, e, s, a) ELSE 0]],
+        finetol |-> FineTol(T, e),
         d |-> [s \in St(T) |-> [a \in Ac(T) |-> IF a \in Avail(T, s) THEN DRes(T, e, s, a) ELSE 0]],
         delta |-> [s \in St(T) |-> Delta(T, e, s)],
         lsetol |-> [s \in St(T) |-> [a \in Ac(T) |-> IF a \in Judged(T, e, s) THEN LseTol(T, e, s, a) ELSE -1]],
@@ -281,7 +317,16 @@ Last  == Len(Tr.ev)
 TInit ==
   /\ Mode = "trace"
   /\ tid \in 1..Len(Batch)
-  /\ l = 0 /\ phase = "init" /\ fails = {} /\ flags = {} /\ sup = <<>> /\ V = <<>>
+  /\ l = -Len(Batch[tid].pre)      \* earlier plan_on calls of the same planner object still to be replayed
+  /\ phase = "init" /\ fails = {} /\ flags = {} /\ sup = <<>> /\ V = <<>>
+
+\* call history: the SAME planner object planned on another MDP before (T.pre lists those MDPs' sizes).  A planner
+\* carries no state from one plan_on to the next: the action changes nothing but the position, so the run on this
+\* MDP is judged exactly like the run of a fresh planner (its own prior, its own action sets, its own size).
+EarlierCall ==
+  /\ Mode = "trace" /\ phase = "init" /\ l < 0
+  /\ l' = l + 1
+  /\ UNCHANGED <<tid, phase, fails, flags, sup, V>>
 
 \* pi_0: the configured initial policy (default: uniform over the actions of positive prior)
 InitialBad(T, e) ==
@@ -291,7 +336,7 @@ ShapeFlags(T, e) ==
   \cup (IF ShapeFails(T, e, 0) # {} THEN {"iterate-policy-not-normalised"} ELSE {})
 
 Start ==
-  /\ Mode = "trace" /\ phase = "init"
+  /\ Mode = "trace" /\ phase = "init" /\ l = 0
   /\ l' = 1 /\ phase' = "improved"
   /\ flags' = flags \cup ShapeFlags(Tr, Ev(1))
                     \cup (IF InitialBad(Tr, Ev(1)) THEN {"initial-policy-differs-from-configured"} ELSE {})
@@ -359,7 +404,7 @@ MImprove ==
   /\ UNCHANGED <<tid, l, fails, flags, V>>
 
 Init == TInit \/ MInit
-Next == Start \/ Evaluate \/ Improve \/ Converge \/ Cap \/ MEvaluate \/ MImprove
+Next == EarlierCall \/ Start \/ Evaluate \/ Improve \/ Converge \/ Cap \/ MEvaluate \/ MImprove
 Spec == Init /\ [][Next]_vars
 
 \* ------------------------------------------------------------------ emission
